@@ -392,6 +392,13 @@ func (fe *FuncEnc) run(extra []*Clause) {
 			fe.assume(f)
 			if strings.HasPrefix(r.Label, "config:") {
 				fe.assumedCallees["configuration invariant assumed by "+relName(fn)+": "+r.Src+eng.establishedBy(r.Label)] = true
+			} else {
+				// a method's precondition is checked at its static call sites; a caller that reaches it through an interface
+				// only knows the interface method's contract, so that contract has to state the same precondition
+				for _, miss := range eng.requiresNotOfferedByIfaces(fn, r) {
+					fe.addOblig(&Oblig{Kind: "requires", Props: r.Props, Label: "offered-through:" + miss + ":" + r.Label, Reach: "true", Formula: "false",
+						Src: "the interface method " + miss + " has no `requires " + r.Src + "` (callers through the interface would not be checked)"}, nil)
+				}
 			}
 		}
 		ensures = append(ensures, fe.fc.Ensures...)
@@ -568,6 +575,53 @@ func (eng *Engine) ifaceClausesFor(fn *ssa.Function) []*Clause {
 			}
 			ifaceBindings[cp] = b
 			out = append(out, cp)
+		}
+	}
+	return out
+}
+
+// requiresNotOfferedByIfaces: the interface methods of /repo that fn implements and whose contract lacks the precondition r.
+func (eng *Engine) requiresNotOfferedByIfaces(fn *ssa.Function, r *Clause) []string {
+	recv := fn.Signature.Recv()
+	if recv == nil {
+		return nil
+	}
+	var out []string
+	for _, path := range sortedKeys(eng.allPkgs) {
+		p := eng.allPkgs[path]
+		if !strings.HasPrefix(path, modPath) || p.Types == nil {
+			continue
+		}
+		sc := p.Types.Scope()
+		for _, name := range sc.Names() {
+			tn, ok := sc.Lookup(name).(*types.TypeName)
+			if !ok {
+				continue
+			}
+			it, ok := tn.Type().Underlying().(*types.Interface)
+			if !ok || it.NumMethods() == 0 || !types.Implements(recv.Type(), it) {
+				continue
+			}
+			has := false
+			for i := 0; i < it.NumMethods(); i++ {
+				if it.Method(i).Name() == fn.Name() {
+					has = true
+				}
+			}
+			if !has {
+				continue
+			}
+			offered := false
+			if fc := eng.specs.ifaces[path+"."+name+"."+fn.Name()]; fc != nil {
+				for _, q := range fc.Requires {
+					if q.Src == r.Src {
+						offered = true
+					}
+				}
+			}
+			if !offered {
+				out = append(out, shortPkg(path)+"."+name+"."+fn.Name())
+			}
 		}
 	}
 	return out
